@@ -804,4 +804,112 @@ theorem run_reachable {s0 s s' : St} (hr : Reachable s0 s) (es : List Ev) (h : r
       exact ih (Reachable.step e hr hs1) h
     · cases h
 
+/-! ### every run is finite -/
+
+/-- steps a caller can still take, at most -/
+def mu (n : Nat) : PC → Nat
+  | .next i => (n - i) * 10 + 10
+  | .wantR i => (n - i) * 10 + 9
+  | .holdR i _ => (n - i) * 10 + 8
+  | .toCall i _ => (n - i) * 10 + 7
+  | .calling i _ => (n - i) * 10 + 6
+  | .erred i _ => (n - i) * 10 + 5
+  | .wantW i _ => (n - i) * 10 + 4
+  | .holdW i _ => (n - i) * 10 + 3
+  | .advd i => (n - i) * 10 + 2
+  | .ok _ _ => 0
+  | .failed => 0
+
+def total (s : St) : Nat := (s.callers.map (mu s.n)).sum
+
+/-- a caller inside the loop body has passed the loop test -/
+def Att (n : Nat) : PC → Prop
+  | .next _ => True
+  | .wantR i => i < n
+  | .holdR i _ => i < n
+  | .toCall i _ => i < n
+  | .calling i _ => i < n
+  | .erred i _ => i < n
+  | .wantW i _ => i < n
+  | .holdW i _ => i < n
+  | .advd i => i < n
+  | .ok _ _ => True
+  | .failed => True
+
+theorem att_reachable {s0 s : St} (h0 : ∀ (t : Nat) (pc : PC), s0.callers[t]? = some pc → Att s0.n pc)
+    (hr : Reachable s0 s) : ∀ (t : Nat) (pc : PC), s.callers[t]? = some pc → Att s.n pc := by
+  induction hr with
+  | refl => exact h0
+  | step e _ hs ih =>
+    obtain ⟨pc0, pc', act', hpc, htr, hs'⟩ := step_spec hs
+    subst hs'
+    have hg := ih _ _ hpc
+    apply forall_set ih
+    cases htr <;> simp only [Att] at hg ⊢ <;> assumption
+
+theorem sum_set_lt {f : PC → Nat} {pc pc' : PC} (hlt : f pc' < f pc) :
+    ∀ (l : List PC) (t : Nat), l[t]? = some pc → ((l.set t pc').map f).sum < (l.map f).sum := by
+  intro l
+  induction l with
+  | nil => intro t h; cases h
+  | cons x xs ih =>
+    intro t h
+    cases t with
+    | zero =>
+      simp only [List.getElem?_cons_zero] at h
+      injection h with h; subst h
+      simp only [List.set_cons_zero, List.map_cons, List.sum_cons]
+      omega
+    | succ t =>
+      simp only [List.getElem?_cons_succ] at h
+      have := ih t h
+      simp only [List.set_cons_succ, List.map_cons, List.sum_cons]
+      omega
+
+/-- **every step uses up budget**: the number of steps the callers can still take strictly decreases — no
+hypothesis on the members, on `h`, or on the schedule -/
+theorem step_decreases {s0 s s' : St} (h0 : ∀ (t : Nat) (pc : PC), s0.callers[t]? = some pc → Att s0.n pc)
+    (hr : Reachable s0 s) (e : Ev) (hs : step s e = some s') : total s' < total s := by
+  obtain ⟨pc0, pc', act', hpc, htr, hs'⟩ := step_spec hs
+  subst hs'
+  have hatt := att_reachable h0 hr _ _ hpc
+  show ((s.callers.set e.caller pc').map (mu s.n)).sum < (s.callers.map (mu s.n)).sum
+  apply sum_set_lt _ _ _ hpc
+  cases htr <;> simp only [mu, Att] at hatt ⊢ <;> omega
+
+theorem att_init (n h : Nat) (wp tr : Bool) (reqs : List (Op × Bool)) :
+    ∀ (t : Nat) (pc : PC), (St.init n h wp tr reqs).callers[t]? = some pc → Att (St.init n h wp tr reqs).n pc := by
+  intro t pc hpc
+  simp only [St.init, List.getElem?_replicate] at hpc
+  split at hpc
+  · injection hpc with hpc; subst hpc; trivial
+  · cases hpc
+
+/-- **every schedule is finite**: a run of the machine from the initial state takes at most
+`k * (10 n + 10)` steps (`k` callers, `n` members) -/
+theorem run_bounded (n h : Nat) (wp tr : Bool) (reqs : List (Op × Bool)) (s s' : St)
+    (hr : Reachable (St.init n h wp tr reqs) s) (es : List Ev) (hrun : run s es = some s') :
+    es.length + total s' ≤ total s := by
+  induction es generalizing s with
+  | nil => simp only [run] at hrun; injection hrun with hrun; subst hrun; simp
+  | cons e es ih =>
+    simp only [run] at hrun
+    split at hrun
+    · rename_i s1 hs1
+      have h1 := step_decreases (att_init n h wp tr reqs) hr e hs1
+      have h2 := ih s1 (Reachable.step e hr hs1) hrun
+      simp only [List.length_cons]
+      omega
+    · cases hrun
+
+theorem sum_replicate_nat (k c : Nat) : (List.replicate k c).sum = k * c := by
+  induction k with
+  | zero => simp
+  | succ k ih => rw [List.replicate_succ, List.sum_cons, ih, Nat.succ_mul]; omega
+
+theorem total_init (n h : Nat) (wp tr : Bool) (reqs : List (Op × Bool)) :
+    total (St.init n h wp tr reqs) = reqs.length * (n * 10 + 10) := by
+  simp only [total, St.init, List.map_replicate, mu, Nat.sub_zero]
+  exact sum_replicate_nat _ _
+
 end Desync.Failover
